@@ -73,3 +73,32 @@ reg["C07"] = {"level": "model_checking", "explanation": EXPL, "assumptions": ASS
     "harnesses": co(["VH_C07_Claim"], ["claim", "refus", "invalid", "O2:G2", "O2:I4"], opts={"slots.callbacks": 0, "slots.locks": 0, "slots.schedules": 0, "slots.promises": 2, "slots.tasks": 2}, reach=REACH_P)
                  + co(["VH_T_Complete", "VH_T_Heartbeat", "VH_T_TimeoutSweep"], ["C07:", "O2:G2", "O2:I4"], opts=TASKOPT, optsT=TASKOPT_T, reach=REACH_P)
                  + store(["VH_C16_UpdateTask", "VH_C16_HeartbeatTasks", "VH_C16_CompleteTasks"], [])}
+
+DISPOPT = {"slots.callbacks": 0, "slots.locks": 0, "slots.schedules": 0, "slots.promises": 1, "slots.tasks": 2, "batch": 1}
+DISPOPT_T = {"slots.callbacks": 1, "slots.locks": 0, "slots.schedules": 0, "slots.promises": 2, "slots.tasks": 2, "batch": 2, "faults": 1}
+ROUTEOPT = {"slots.callbacks": 0, "slots.locks": 0, "slots.schedules": 0, "slots.promises": 2, "slots.tasks": 2}
+REACH_P.update({"VH_D_CreateRouted": ["created", "routed", "unrouted"], "VH_D_CreateWithTask": ["created", "exists", "refused-unroutable", "error"],
+    "VH_D_Enqueue": ["hand-off", "final-write"], "VH_P_Search": ["page", "cursor"],
+    "VH_G_ProgressPromises": ["done"], "VH_G_ProgressLocks": ["done"], "VH_G_ProgressTasks": ["done"], "VH_G_ProgressSchedules": ["done"], "VH_G_ProgressEnqueue": ["done"]})
+reg["C08"] = {"level": "model_checking", "explanation": EXPL, "assumptions": ASSUME_CO + ["Sender completions are arbitrary per task (success / refused / error)"],
+    "outside": ["that only one instance of a background coroutine runs at a time (kernel fact, see C11/C12)", "real sender/plugin delivery (C19)"],
+    "harnesses": co(["VH_D_CreateRouted", "VH_D_CreateWithTask"], ["C08:", "C07:", "O2:I4", "O2:G2"], opts=ROUTEOPT, reach=REACH_P)
+                 + co(["VH_D_Enqueue"], ["C08:", "O2:G2", "O2:I4"], opts=DISPOPT, optsT=DISPOPT_T, reach=REACH_P)
+                 + store(["VH_C05_CompletionTxn"], ["C08:"]) + store(["VH_R_Enqueueable"], ["C08:"]) + store(["VH_C16_CreateTask", "VH_C16_CompleteTasks"], [])}
+SWEEPOPT = {"slots.callbacks": 1, "slots.locks": 2, "slots.schedules": 2, "slots.promises": 2, "slots.tasks": 2, "batch": 1}
+SWEEPOPT_T = {"slots.callbacks": 1, "slots.locks": 2, "slots.schedules": 2, "slots.promises": 3, "slots.tasks": 3, "batch": 2, "faults": 2}
+reg["C11"] = {"level": "model_checking", "explanation": "ranking lemmas decided by bounded symbolic execution: one fault-free instance of each background coroutine, run alone from an arbitrary invariant-satisfying database, reduces the overdue items of its class by at least min(batch, overdue) (batch 1 quick, 2 thorough); every path of every background coroutine returns, also under injected store/router/sender failures; the sweeps' selects return exactly min(limit, overdue) overdue rows, oldest schedule first",
+    "assumptions": ASSUME_CO + ["hand-offs succeed on the paths of the dispatch lemma; cron expressions are parsable and id templates valid on the paths of the schedule lemma (the statement's 'satisfiable cron')"],
+    "outside": ["the real scheduler / worker goroutines delivering each completion exactly once", "queue-size dependent behaviour of the production AIO", "the System.Tick re-add predicate (C12 covers the per-request skeleton)"],
+    "harnesses": co(["VH_G_ProgressPromises", "VH_G_ProgressLocks", "VH_G_ProgressTasks", "VH_G_ProgressSchedules", "VH_G_ProgressEnqueue"], ["C11:"], opts=SWEEPOPT, optsT=SWEEPOPT_T, reach=REACH_P)
+                 + co(["VH_P_TimeoutSweep"], ["C11:"], reach=REACH_P) + co(["VH_T_TimeoutSweep"], ["C11:"], opts=TASKOPT, optsT=TASKOPT_T, reach=REACH_P)
+                 + co(["VH_L_TimeoutSweep"], ["C11:"], opts=LOCKOPT, optsT=LOCKOPT_T, reach=REACH_P) + co(["VH_S_Fire"], ["C11:"], opts=SCHEDOPT, optsT=SCHEDOPT_T, reach=REACH_P)
+                 + co(["VH_D_Enqueue"], ["C11:"], opts=DISPOPT, optsT=DISPOPT_T, reach=REACH_P)
+                 + store(["VH_R_ReadPromises", "VH_R_ReadTasks", "VH_R_Enqueueable", "VH_R_ReadSchedules"], ["C11:"])}
+SEARCHOPT = {"slots.callbacks": 1, "slots.locks": 0, "slots.schedules": 0, "slots.promises": 2, "slots.tasks": 1, "faults": 0}
+SEARCHOPT_T = {"slots.callbacks": 1, "slots.locks": 0, "slots.schedules": 0, "slots.promises": 3, "slots.tasks": 1, "faults": 1}
+reg["C14"] = {"level": "model_checking", "explanation": EXPL + "; the search statements of both backends are compared with 'the <= limit matching rows below the cursor with the largest sort ids, newest first', and following a cursor is shown correct by a two-page induction step with arbitrary interference between the pages",
+    "assumptions": COMMON_ASSUME + ["LIKE is an uninterpreted predicate over (id, pattern after the '*' -> '%' rewrite); tag matching is exact on the decoded string map (json_extract per key in SQLite, @> in Postgres)", "'matching' is evaluated on the stored state"],
+    "outside": ["LIKE collation / '_' and '%' inside client patterns", "JWT signature verification of the cursor token (api layer)"],
+    "harnesses": store(["VH_R_SearchPromises", "VH_R_SearchSchedules"], ["C14:"]) + [dict(h, reach=["two-pages"]) for h in store(["VH_R_TwoPages"], ["C14:"])]
+                 + co(["VH_P_Search"], ["C14:", "C01:", "C04:"], opts=SEARCHOPT, optsT=SEARCHOPT_T, reach=REACH_P)}
